@@ -260,8 +260,10 @@ func c05SysHit(evs []c05SysEvent, set string, n int) (idx, inOp, afterOp int, st
 			continue
 		}
 		if c05SysInSet(set, ev.Name) {
-			cnt[ev.Tid]++
-			if cnt[ev.Tid] == n {
+			// strace keeps one injection counter per (thread, system call)
+			k := ev.Tid + "/" + ev.Name
+			cnt[k]++
+			if cnt[k] == n {
 				return i, inOp, afterOp, started
 			}
 		}
@@ -413,7 +415,7 @@ type c05SysCase struct {
 func TestVerifC05SyscallKill(t *testing.T) {
 	rep := kit.NewReport("C05", "syscallkill")
 	defer rep.Write()
-	rep.SetRule("fault injection at system-call granularity, independent of hook points: a child process runs a seeded C05 workload (Append and AppendMessageSet with rolls, epoch bumps on appended and replicated messages, NewLeaderEpoch, HW moves + explicit checkpoints, truncations incl. exactly at a segment base / the first offset of the latest epoch / the newest offset, Clean with retention and compaction, Close) under `strace -e inject=<set>:signal=SIGKILL:when=N` and dies on entering the N-th call of <set> (openat | write | rename* | fsync | ftruncate | unlink*, or any of them); (set, N) pairs are derived from an uninjected calibration trace of each workload so that every observed (operation kind, system call, kind of file) combination is aimed at, plus seeded random pairs; the directory is recovered with commitlog.New (which must succeed) and judged by the same oracle as the snapshot unit, the in-flight operation being known from marker calls in the trace; distinct non-trivial = distinct (workload, operation, system call, file, N) crash instants inside the log's life (after the first open started)")
+	rep.SetRule("fault injection at system-call granularity, independent of hook points: a child process runs a seeded C05 workload (Append and AppendMessageSet with rolls, epoch bumps on appended and replicated messages, NewLeaderEpoch, HW moves + explicit checkpoints, truncations incl. exactly at a segment base / the first offset of the latest epoch / the newest offset, Clean with retention and compaction, Close) under `strace -e inject=<set>:signal=SIGKILL:when=N` and dies on entering the N-th call of <set> (openat | write | rename* | fsync | ftruncate | unlink*; N counts per thread); (set, N) pairs are derived from an uninjected calibration trace of each workload so that every observed (operation kind, system call, kind of file) combination is aimed at, plus seeded random pairs; the directory is recovered with commitlog.New (which must succeed) and judged by the same oracle as the snapshot unit, the in-flight operation being known from marker calls in the trace; distinct non-trivial = distinct (workload, operation, system call, file, N) crash instants inside the log's life (after the first open started)")
 	rep.Assume("process-crash model: the OS keeps the effects of every system call that returned before the kill; the call being entered has no effect; other threads' calls in progress may or may not have taken effect")
 	rep.Assume("the in-process reference run and the child execute the same deterministic workload (validated by the kill unit's snapshot-vs-kill comparison)")
 	strace, err := exec.LookPath("strace")
@@ -471,7 +473,10 @@ func TestVerifC05SyscallKill(t *testing.T) {
 
 	// predicted combinations
 	byCombo := map[string][]c05SysCase{}
-	maxUnion := make([]int, nplans)
+	maxCount := make([]map[string]int, nplans) // plan -> set -> largest per-thread count
+	for i := range maxCount {
+		maxCount[i] = map[string]int{}
+	}
 	for pi := 0; pi < nplans; pi++ {
 		evs := calib[pi]
 		if evs == nil {
@@ -500,8 +505,11 @@ func TestVerifC05SyscallKill(t *testing.T) {
 				if !c05SysInSet(set, ev.Name) {
 					continue
 				}
-				cnt[ev.Tid]++
-				n := cnt[ev.Tid]
+				cnt[ev.Tid+"/"+ev.Name]++
+				n := cnt[ev.Tid+"/"+ev.Name]
+				if n > maxCount[pi][set] {
+					maxCount[pi][set] = n
+				}
 				if reached[n] {
 					continue // another thread gets to n first
 				}
@@ -511,15 +519,6 @@ func TestVerifC05SyscallKill(t *testing.T) {
 				}
 				combo := opKind(inOp, afterOp) + "/" + ev.Name + "/" + ev.Kind
 				byCombo[combo] = append(byCombo[combo], c05SysCase{Plan: pi, Set: set, N: n, Target: combo})
-			}
-		}
-		cnt := map[string]int{}
-		for _, ev := range evs {
-			if ev.Marker == 0 {
-				cnt[ev.Tid]++
-				if cnt[ev.Tid] > maxUnion[pi] {
-					maxUnion[pi] = cnt[ev.Tid]
-				}
 			}
 		}
 	}
@@ -557,15 +556,11 @@ func TestVerifC05SyscallKill(t *testing.T) {
 	aimed := len(cases)
 	for tries := 0; len(cases) < budget && tries < budget*20; tries++ {
 		pi := rng.Intn(nplans)
-		if maxUnion[pi] == 0 {
+		set := c05SysSets[rng.Intn(len(c05SysSets))]
+		if maxCount[pi][set] == 0 {
 			continue
 		}
-		if rng.Chance(2, 3) {
-			add(c05SysCase{Plan: pi, Set: c05SysUnion, N: 1 + rng.Intn(maxUnion[pi])})
-		} else if len(combos) > 0 {
-			cs := byCombo[combos[rng.Intn(len(combos))]]
-			add(cs[rng.Intn(len(cs))])
-		}
+		add(c05SysCase{Plan: pi, Set: set, N: 1 + rng.Intn(maxCount[pi][set])})
 	}
 	rep.SetInfo("cases_aimed_at_combinations", aimed)
 	rep.SetInfo("cases", len(cases))
